@@ -219,6 +219,25 @@ func (o VObj) Tok2() (string, error) { return o.tok(9102) }
 func (o VObj) Tok3() error           { _, err := o.tok(9103); return err }
 func (o VObj) Tok4() error           { _, err := o.tok(9104); return err }
 
+// Wrap is a block helper that is a METHOD: obj.Wrap(id) { ... }, objs[0].Wrap(id) { ... }, obj.Self().Wrap(id) { ... }
+func (o *Obj) Wrap(id int, help plush.HelperContext) (template.HTML, error) {
+	fire := o.rt.enter(id, "", pkBlock)
+	if fire && o.rt.Kind != fkBlockPost {
+		return "", o.rt.Fault
+	}
+	s := ""
+	if help.HasBlock() {
+		var err error
+		if s, err = help.Block(); err != nil {
+			return "", err
+		}
+	}
+	if fire {
+		return "", o.rt.Fault
+	}
+	return template.HTML("(" + s + ")"), nil
+}
+
 // PS is the head of a chained call: obj.PS(id).Name
 func (o *Obj) PS(id int) (*Obj, error) {
 	if o.rt.enter(id, "", pkMethod) {
@@ -342,6 +361,8 @@ func (rt *Runtime) helperData() map[string]interface{} {
 			}
 			return v, 3, nil
 		},
+		// a helper that panics, always with the same value: the render panics (or fails) the same way every time
+		"ppanic": func() string { panic("harness: this helper panics") },
 		"pe": func(id int) error {
 			if rt.enter(id, "", pkErr) {
 				return rt.Fault
